@@ -18,6 +18,7 @@ import (
 	"log"
 	"net"
 	"os"
+	"runtime"
 	"strconv"
 	"strings"
 	"sync"
@@ -110,6 +111,9 @@ func (c verifCam) FPS() int  { return c.fps }
 //   new <outdir> <constant 0|1> <resx> <resy>   start <thresh>   write <value>   stop   Stop
 //   deltemp <dir>   exit
 func verifFileRec() int {
+	// every system call of this driver is made by one OS thread, so that the harness can
+	// count them (strace's injection counter is per thread)
+	runtime.LockOSThread()
 	in := bufio.NewScanner(os.Stdin)
 	var rec *CPTVFileRecorder
 	var cam verifCam
